@@ -36,8 +36,8 @@ type ConnCase struct {
 type ProtoCase struct {
 	Ifaces    []string   `json:"ifaces"`
 	Conns     []ConnCase `json:"conns"`
-	Transport string     `json:"transport"` // "pipe" (fake listener) | "unix" (abstract socket, Bind+DoListen)
-	Probe     bool       `json:"probe"`     // a second, well-behaved connection does GetInfo before/during/after
+	Transport string     `json:"transport"`          // "pipe" (fake listener) | "unix" (abstract socket, Bind+DoListen)
+	Probe     bool       `json:"probe"`              // a second, well-behaved connection does GetInfo before/during/after
 	IdleEnd   bool       `json:"idle_end,omitempty"` // pipe only: serve with an idle timeout and end by an injected accept-timeout expiry instead of Shutdown
 	Origin    string     `json:"origin,omitempty"`
 }
@@ -249,14 +249,14 @@ func probeGetInfo(conn net.Conn, cfg SvcConfig, bound time.Duration) error {
 
 // ProtoOutcome carries facts for the non-triviality rules of the callers.
 type ProtoOutcome struct {
-	Frames     int
-	Invs       int
-	Refused    int
-	DiedByErr  bool
-	DiedByBad  bool
-	Aborted    bool
-	ExpFrames  [][]ExpFrame
-	ExpInvs    [][]ExpInv
+	Frames    int
+	Invs      int
+	Refused   int
+	DiedByErr bool
+	DiedByBad bool
+	Aborted   bool
+	ExpFrames [][]ExpFrame
+	ExpInvs   [][]ExpInv
 }
 
 // ExecProto runs the scenario and returns a violation description or nil.
